@@ -660,6 +660,10 @@ impl PersistenceState {
             return Ok(false);
         }
 
+        // Periodic fsync: the tail of the old segment must be durable before we stop writing to
+        // it, because later fsyncs only reach the new segment.
+        wal_guard.sync_if_unsynced()?;
+
         let old_path = wal_guard.path().to_path_buf();
 
         let new_wal_path = self
@@ -3015,6 +3019,14 @@ impl HnswBackend {
     pub fn sync_wal(&self) -> Result<()> {
         if let Some(ref persistence) = self.persistence {
             persistence.wal.write().sync()?;
+        }
+        Ok(())
+    }
+
+    /// Periodic fsync policy: make frames appended since the last fsync durable (no-op otherwise).
+    pub fn sync_wal_if_unsynced(&self) -> Result<()> {
+        if let Some(ref persistence) = self.persistence {
+            persistence.wal.write().sync_if_unsynced()?;
         }
         Ok(())
     }
